@@ -276,6 +276,19 @@ def search(ctx):
                                "expected": "canonical DER of SPKI / ECPrivateKey / OneAsymmetricKey, exact round trips"})
                 if len(ctx.violations) >= 5:
                     return
+    # PEM armour sweep (independent reference: base64 in 64-character lines between the two marker lines).  The body of a PEM
+    # file is base64 TEXT, so it can spell any word over [A-Za-z0-9+/] - "END", "BEGIN", "KEY", "EC" ... - by chance about once
+    # in 1500 keys; a reader that recognises its marker lines by anything weaker than the "-----" prefix truncates exactly
+    # those files.  Blobs are crafted so that their base64 text contains such words at every alignment, plus random ones.
+    for blob, name in armour_blobs(ctx):
+        n_eval += 1
+        bad = check_armour(blob, name)
+        ctx.hist("search.class", "pem-armour")
+        if bad:
+            ctx.violation({"input": {"pem_blob": blob.hex(), "name": name}, "observed": bad,
+                           "expected": "unpem(topem(blob, name)) == blob and topem = base64 in 64-character lines between the marker lines"})
+            if len(ctx.violations) >= 5:
+                return
     if k3:
         # open known finding K3, reported once per run: the version INTEGER of the PKCS#8 output is 1, RFC 5958 says 0
         w = k3[0]
@@ -289,9 +302,56 @@ def search(ctx):
     ctx.hist("search", "oracle_cases", n_eval)
 
 
+ARMOUR_WORDS = ("END", "BEGIN", "KEY", "EC", "PUBLIC", "PRIVATE", "ENDENDEND", "BEGINEND", "END+", "/END", "Proc", "DEK")
+
+
+def armour_blobs(ctx):
+    """(blob, name) pairs: random blobs of key-like sizes, and blobs whose base64 text contains a marker-like word at each of
+    the four alignments, at the start, in the middle and at the end of a 64-character line"""
+    rng = ctx.rng
+    out = []
+    for w in ARMOUR_WORDS:
+        for align in range(4):
+            txt = ("A" * align + w)
+            txt += "A" * (-len(txt) % 4)
+            core = base64.b64decode(txt)
+            for before in (0, 3, 45, 48, 93):   # multiples of 3 keep the alignment; 48 bytes = one full line
+                for after in (0, 2, 48):
+                    out.append((bytes(rng.randrange(256) for _ in range(before)) + core + bytes(rng.randrange(256) for _ in range(after)),
+                                rng.choice(("PUBLIC KEY", "EC PRIVATE KEY", "PRIVATE KEY"))))
+    for _ in range(300 if ctx.quick else 20000):
+        out.append((bytes(rng.randrange(256) for _ in range(rng.randrange(1, 260))), rng.choice(("PUBLIC KEY", "EC PRIVATE KEY", "PRIVATE KEY"))))
+    return out
+
+
+def check_armour(blob, name):
+    from ecdsa import der
+    bad = []
+    try:
+        pem = der.topem(blob, name)
+        b64 = base64.b64encode(blob)
+        ref = ("-----BEGIN %s-----\n" % name).encode() + b"".join(b64[i:i + 64] + b"\n" for i in range(0, len(b64), 64)) + \
+            ("-----END %s-----\n" % name).encode()
+        if pem != ref:
+            bad.append("topem differs from the reference armour: %r" % pem[:120])
+        for v, what in ((pem, "as written"), (ref, "reference"), (ref.replace(b"\n", b"\r\n"), "CRLF")):
+            try:
+                got = der.unpem(v)
+            except Exception as e:  # noqa
+                bad.append("unpem (%s) raised %s" % (what, common.errname(e)))
+                continue
+            if got != blob:
+                bad.append("unpem (%s) returned %d bytes %s.., expected %d bytes" % (what, len(got), got[:8].hex(), len(blob)))
+    except Exception as e:  # noqa
+        bad.append("topem raised %s" % common.errname(e))
+    return bad[:4]
+
+
 def replay(rec):
     from ecdsa import curves as C
     i = rec["input"]
+    if isinstance(i, dict) and "pem_blob" in i:
+        return bool(check_armour(bytes.fromhex(i["pem_blob"]), i.get("name", "PUBLIC KEY")))
     if not isinstance(i, dict) or "curve" not in i or "d" not in i:
         K.cannot_replay("C09 records are {curve, d[, k3]}; got %r" % (i,))
     cv = next((c for c in C.curves if c.name == i["curve"]), None)
